@@ -105,8 +105,21 @@ def run(sid, props):
         sh(f"./check {p} --tier quick", cwd=VERIF)
 
 
+def runall():
+    import glob
+    for d in sorted(glob.glob(f"{VERIF}/seeded/*/meta.json")):
+        sid = os.path.basename(os.path.dirname(d))
+        rc, out = sh(f"git -C /repo apply --check {VERIF}/seeded/{sid}/patch.diff")
+        if rc != 0:
+            print(sid, "PATCH DOES NOT APPLY to the current /repo HEAD")
+            continue
+        run(sid, [])
+
+
 if __name__ == "__main__":
-    if sys.argv[1] == "verify":
+    if sys.argv[1] == "runall":
+        runall()
+    elif sys.argv[1] == "verify":
         verify(sys.argv[2], sys.argv[3])
     elif sys.argv[1] == "run":
         run(sys.argv[2], sys.argv[3:])
